@@ -45,6 +45,159 @@ QUERIES = [
 ]
 
 
+class QGen:
+    """Random @defer/@stream queries over the Obj schema (validated afterwards)."""
+
+    def __init__(self, rng):
+        self.r, self.labels, self.frags = rng, 0, []
+
+    def label(self):
+        self.labels += 1
+        return f'label: "L{self.labels}"'
+
+    def defer(self):
+        x = self.r.random()
+        if x < 0.45:
+            return ""
+        args = []
+        if self.r.random() < 0.5:
+            args.append(self.label())
+        if self.r.random() < 0.12:
+            args.append("if: false")
+        return " @defer" + ("(" + ", ".join(args) + ")" if args else "")
+
+    def stream(self):
+        if self.r.random() < 0.55:
+            return ""
+        args = [f"initialCount: {self.r.choice([0, 1, 1, 2])}"]
+        if self.r.random() < 0.4:
+            args.append(self.label())
+        return " @stream(" + ", ".join(args) + ")"
+
+    def sel(self, depth, n=None):
+        out = []
+        for _ in range(n or self.r.randint(1, 4)):
+            k = self.r.random()
+            alias = (self.r.choice(["x", "y", "z"]) + ": ") if self.r.random() < 0.12 else ""
+            if k < 0.35 or depth <= 0:
+                out.append(alias + self.r.choice(["id", "name", "name", "req"]))
+            elif k < 0.5:
+                out.append(alias + self.r.choice(["bestFriend", "bestFriend", "nnFriend"]) + " { " + self.sel(depth - 1) + " }")
+            elif k < 0.68:
+                out.append(alias + self.r.choice(["friends", "friends", "nnFriends"]) + self.stream() + " { " + self.sel(depth - 1) + " }")
+            elif k < 0.88:
+                cond = " on Obj" if self.r.random() < 0.4 else ""
+                out.append("..." + cond + self.defer() + " { " + self.sel(depth, self.r.randint(1, 3)) + " }")
+            else:
+                if self.frags and self.r.random() < 0.5:
+                    name = self.r.choice(self.frags)[0]
+                else:
+                    name = f"F{len(self.frags)}"
+                    self.frags.append((name, None))
+                    body = self.sel(depth - 1)
+                    self.frags = [(a, body if a == name else b) for a, b in self.frags]
+                out.append("..." + name + self.defer())
+        return " ".join(out)
+
+    def query(self):
+        roots = []
+        for _ in range(self.r.randint(1, 3)):
+            k = self.r.random()
+            if k < 0.5:
+                roots.append(self.r.choice(["me", "a", "b", "slow", "nn"]) + " { " + self.sel(2) + " }")
+            elif k < 0.75:
+                roots.append(self.r.choice(["list", "nnlist"]) + self.stream() + " { " + self.sel(2) + " }")
+            else:
+                roots.append("..." + self.defer() + " { " + self.r.choice(["me", "a", "slow"]) + " { " + self.sel(2) + " } }")
+        text = "{ " + " ".join(roots) + " }"
+        for name, body in self.frags:
+            text += f" fragment {name} on Obj {{ {body or 'id'} }}"
+        return text
+
+
+class Cover:
+    """Covering generator: a directive-free base selection tree is rendered with overlapping deferred
+    fragments (the same field under several fragments with overlapping sub-selections, nested defers,
+    defers inside list items and streams, the same named fragment spread at several places)."""
+
+    SCALARS = ["id", "name", "req"]
+
+    def __init__(self, rng):
+        self.r, self.labels, self.stream_args, self.frags, self.nfrag = rng, 0, {}, {}, 0
+        self.base = self.mk_root()
+
+    def mk_obj(self, depth):
+        node = {}
+        for f in self.r.sample(self.SCALARS, self.r.randint(1, 3)):
+            node[f] = ("scalar", None)
+        if depth > 0:
+            for f in self.r.sample(["bestFriend", "nnFriend", "friends", "nnFriends"], self.r.randint(0, 2)):
+                node[f] = ("list" if "riends" in f else "obj", self.mk_obj(depth - 1))
+        return node
+
+    def mk_root(self):
+        node = {}
+        for f in self.r.sample(["me", "a", "slow", "list", "nnlist", "nn"], self.r.randint(1, 3)):
+            node[f] = ("list" if "list" in f else "obj", self.mk_obj(2))
+        return node
+
+    def label(self):
+        self.labels += 1
+        return f'label: "L{self.labels}"'
+
+    def defer(self, p_none=0.15):
+        if self.r.random() < p_none:
+            return ""
+        args = [self.label()] if self.r.random() < 0.7 else []
+        if self.r.random() < 0.08:
+            args.append("if: false")
+        return " @defer" + ("(" + ", ".join(args) + ")" if args else "")
+
+    def field(self, node, f, path):
+        kind, child = node[f]
+        if kind == "scalar":
+            return f
+        st = ""
+        if kind == "list":
+            key = path + (f,)
+            if key not in self.stream_args:
+                self.stream_args[key] = (f" @stream(initialCount: {self.r.choice([0, 1, 1, 2])})"
+                                         if self.r.random() < 0.45 else "")
+            st = self.stream_args[key]
+        return f + st + " { " + self.render(child, path + (f,)) + " }"
+
+    def render(self, node, path):
+        fields = list(node)
+        parts, used = [], set()
+        for f in fields:
+            if self.r.random() < 0.45:
+                parts.append(self.field(node, f, path))
+                used.add(f)
+        for _ in range(self.r.randint(0, 3)):
+            sub = [f for f in fields if self.r.random() < 0.6] or [self.r.choice(fields)]
+            used.update(sub)
+            if self.r.random() < 0.25 and path:
+                # named fragment on Obj, reusable at every rendering of this base node
+                key = (path, tuple(sub))
+                if key not in self.frags:
+                    self.nfrag += 1
+                    self.frags[key] = (f"F{self.nfrag}", " ".join(self.field(node, f, path) for f in sub))
+                parts.append("..." + self.frags[key][0] + self.defer(0.4))
+            else:
+                parts.append("..." + self.defer() + " { " + " ".join(self.field(node, f, path) for f in sub) + " }")
+        for f in fields:
+            if f not in used:
+                parts.append(self.field(node, f, path))
+        self.r.shuffle(parts)
+        return " ".join(parts)
+
+    def query(self):
+        text = "{ " + self.render(self.base, ()) + " }"
+        for name, body in self.frags.values():
+            text += f" fragment {name} on Obj {{ {body} }}"
+        return text
+
+
 def strip_directives(doc):
     """The same operation with @defer/@stream removed."""
     from graphql.language import Visitor, visit, REMOVE
@@ -75,30 +228,52 @@ def py_merge(initial, payloads):
                 deep(old[k], v)
             else:
                 old[k] = copy.deepcopy(v)
+    reordered = 0
+    applied_order = []
     for p in payloads:
         for pe in p.get("pending", []):
             pending[pe["id"]] = list(pe["path"])
-        for inc in p.get("incremental", []):
-            if inc["id"] not in pending:
-                problems.append(f"incremental entry for id {inc['id']} which is not pending")
-                continue
-            try:
-                if "items" in inc:
-                    tgt = at(pending[inc["id"]])
-                    if not isinstance(tgt, list):
-                        problems.append("stream target is not a list")
-                        continue
-                    tgt.extend(copy.deepcopy(inc["items"]))
-                else:
-                    tgt = at(pending[inc["id"]] + list(inc.get("subPath", [])))
-                    if not isinstance(tgt, dict):
-                        problems.append("defer target is not an object")
-                        continue
-                    deep(tgt, inc["data"])
-            except (KeyError, IndexError, TypeError):
-                problems.append(f"target of id {inc['id']} does not exist in the assembled data")
+        todo = list(p.get("incremental", []))
+        this_order = []
+        progress = True
+        first_pass = True
+        while todo and progress:
+            progress, rest = False, []
+            for inc in todo:
+                if inc["id"] not in pending:
+                    problems.append(f"incremental entry for id {inc['id']} which is not pending")
+                    progress = True
+                    continue
+                try:
+                    if "items" in inc:
+                        tgt = at(pending[inc["id"]])
+                        if not isinstance(tgt, list):
+                            problems.append("stream target is not a list")
+                            progress = True
+                            continue
+                        tgt.extend(copy.deepcopy(inc["items"]))
+                    else:
+                        tgt = at(pending[inc["id"]] + list(inc.get("subPath", [])))
+                        if not isinstance(tgt, dict):
+                            problems.append("defer target is not an object")
+                            progress = True
+                            continue
+                        deep(tgt, inc["data"])
+                    progress = True
+                    this_order.append(inc)
+                except (KeyError, IndexError, TypeError):
+                    rest.append(inc)  # target not there yet: retry after the other entries of this payload
+            if rest and first_pass and len(rest) < len(todo):
+                reordered += 1
+            first_pass = False
+            todo = rest
+        for inc in todo:
+            problems.append(f"target of id {inc['id']} does not exist in the assembled data")
+        applied_order.append(this_order)
         for c in p.get("completed", []):
             pending.pop(c["id"], None)
+    py_merge.last_reordered = reordered
+    py_merge.last_order = applied_order
     return data, problems, pending
 
 
@@ -154,11 +329,30 @@ def run(tier):
                "build_execution_plan driven directly on generated grouped field sets vs the Coq model. non-trivial = at least "
                "one subsequent payload carrying data")
     docs = [(q, parse(q)) for q in QUERIES]
+    from graphql import validate
+    ngen = 0
+    for _ in range(400 if quick else 6000):
+        if ngen >= (120 if quick else 2000):
+            break
+        q = QGen(rng).query() if rng.random() < 0.35 else Cover(rng).query()
+        if "@defer" not in q and "@stream" not in q:
+            continue
+        try:
+            d = parse(q)
+        except Exception:  # noqa: BLE001
+            ck.count("generator_syntax_error")
+            continue
+        if validate(schema, d):
+            ck.count("rejected_by_validate")
+            continue
+        docs.append((q, d))
+        ngen += 1
+    ck.count("generated_queries", ngen)
     nruns = 0
     merge_cases, merge_meta = [], []
     for q, doc in docs:
         ref_doc = strip_directives(doc)
-        ntrials = 4 if quick else 30
+        ntrials = (4 if quick else 30) if q in QUERIES else (3 if quick else 6)
         for trial in range(ntrials):
             log0 = []
             w0 = World(rng, [None], {}, log0)
@@ -259,6 +453,12 @@ def run(tier):
                             ck.violation(key, "errors were lost: reference has errors, incremental run reports none", dict(rep))
                     if left:
                         ck.violation(key, f"ids {sorted(left)} announced but never completed", dict(rep, payloads=payloads))
+                    if py_merge.last_reordered:
+                        # entries of one payload had to be applied out of order (a target created by a later
+                        # entry of the same payload): counted here, judged by C05's "assembled so far" clause
+                        ck.count("payloads_needing_in_payload_reordering", py_merge.last_reordered)
+                        payloads = [dict(p, incremental=o) if "incremental" in p else p
+                                    for p, o in zip(payloads, py_merge.last_order)]
                     merge_cases.append(enc_merge_case(initial, payloads))
                     merge_meta.append((key, rep, merged))
     # the extracted merge oracle must agree with the Python merge on every run
